@@ -27,8 +27,8 @@ ASSUMPTIONS = [
     "a pair in which one run ends in a documented rejection (thermal crop without enough degree days in the shorter tail) is counted as rejected, not compared",
     "(extend) both runs read the same weather table, generated long enough for the extended end",
 ]
-BUDGET = {"quick": 200, "thorough": 3000}
-PROFILE_CAL = gen.profile(crops=list(gen.CAL_CROPS), seasons=(1, 2), max_days=650, p_custom_soil=0.15, p_gw=0.15, p_fm=0.3, pad=(0, 5))
+BUDGET = {"quick": 260, "thorough": 6000}
+PROFILE_CAL = gen.profile(crops=list(gen.CAL_CROPS) + ["Potato", "SugarBeet", "Tomato", "Quinoa"], seasons=(1, 3), max_days=650, p_custom_soil=0.15, p_gw=0.15, p_fm=0.3, pad=(0, 5))
 PROFILE_ANY = gen.profile(seasons=(1, 2), max_days=650, p_gdd=0.5, p_custom_soil=0.15, p_gw=0.15, p_fm=0.3, pad=(0, 5))
 
 
@@ -39,7 +39,17 @@ def cases(draw):
         cfg = draw(gen.configs(PROFILE_CAL))
         n = (dt.datetime.strptime(cfg["end"], "%Y/%m/%d") - dt.datetime.strptime(cfg["start"], "%Y/%m/%d")).days
         t = draw(st.integers(1, max(1, n - 1)))
-        cols = draw(st.lists(st.sampled_from(["MinTemp", "MaxTemp", "Precipitation", "ReferenceET"]), min_size=1, max_size=4, unique=True))
+        if draw(st.integers(0, 1)):
+            # half of the cuts fall in the first weeks of the LAST season (crop-calendar decisions are taken there)
+            import datetime as _dt
+
+            s0 = _dt.datetime.strptime(cfg["start"], "%Y/%m/%d")
+            e0 = _dt.datetime.strptime(cfg["end"], "%Y/%m/%d")
+            pm, pd_ = [int(x) for x in cfg["crop"]["planting"].split("/")]
+            cands = [_dt.datetime(y, pm, pd_) for y in range(s0.year, e0.year + 1) if s0 <= _dt.datetime(y, pm, pd_) < e0]
+            if cands:
+                t = min(max(1, (cands[-1] - s0).days + draw(st.integers(1, 70))), max(1, n - 1))
+        cols = draw(st.lists(st.sampled_from(["MinTemp", "MaxTemp", "MinTemp", "MaxTemp", "Precipitation", "ReferenceET"]), min_size=1, max_size=4, unique=True))
         spec = {}
         for c in cols:
             if c in ("MinTemp", "MaxTemp"):
